@@ -272,7 +272,7 @@ def r6(run, ctx):
     # Watcher.send_signal*/ Process.stop
     prim = [P + 'send_signal', P + 'stop', P + 'send_signal_child', P + 'send_signal_children']
     allowed = {
-        P + 'send_signal': {W + 'send_signal', W + '_reload'},
+        P + 'send_signal': {W + 'send_signal'},
         P + 'stop': {W + 'kill_process', W + 'reap_process'},
         P + 'send_signal_child': {W + 'send_signal_process', W + 'send_signal_child'},
         P + 'send_signal_children': {W + 'send_signal_children'},
